@@ -30,6 +30,8 @@ RULE = (
     'non-trivial = history with >= 2 runs / thread batch in which thread switches between '
     'activations were observed; distinct = history or digest'
 )
+RULE = RULE + (' Further: infinite sleepers, exact integer clocks, nested runs ending with SystemExit / KeyboardInterrupt, leaked values of many kinds (falsy, equal to everything), StopAsyncIteration escaping a root, same-named threads.')
+
 LEVEL_TEXT = (
     'Exploration by runtime monitoring: run histories are checked against the statement on the '
     'real entry point; real OS threads run many simulations concurrently under forced GIL '
